@@ -140,6 +140,6 @@ theorem grouping_empty {lsa : Lsa K} {P : Grouping.Params K} {r : Nat} {scores :
   refine ⟨out, h, hconns, hassign, ?_⟩
   rw [hconns, hassign] at hi
   simp [makeInstances, checkConns, sortedIds, nextId] at hi
-  exact hi.symm
+  exact hi
 
 end SleapVerif.BottomUp
